@@ -462,8 +462,16 @@ func (f *Filter) HashMatchAny(key [KeySize]byte, data [][]byte) (bool, error) {
 
 	b := bstream.NewBStreamReader(filterData)
 
+	// N may come from an untrusted serialization (FromNBytes), so it must not
+	// size the index on its own: every value occupies at least P+1 bits of
+	// the filter data.
+	sizeHint := uint64(len(filterData)) * 8 / (uint64(f.p) + 1)
+	if uint64(f.N()) < sizeHint {
+		sizeHint = uint64(f.N())
+	}
+
 	var (
-		values    = make(map[uint64]struct{}, f.N())
+		values    = make(map[uint64]struct{}, sizeHint)
 		lastValue uint64
 	)
 
